@@ -48,7 +48,7 @@ fn base_cfg() -> Cfg {
 }
 
 fn base_scenario(sides: [Side; 2], cfg: Cfg, plan: Plan) -> Scenario {
-    Scenario { guarded: false, via: Via::Wire, cfg, topo: Topo::CrossV4, bind_wild: false, sides, plan, poll: PollOrder::Fwd, spurious: 0, udp: vec![] }
+    Scenario { guarded: false, via: Via::Wire, cfg, topo: Topo::CrossV4, bind_wild: false, sides, plan, poll: PollOrder::Fwd, spurious: 0, udp: vec![], lo_side: None }
 }
 
 /// (a) the only acknowledgement of a data segment is lost (the receiver has nothing to send, the
@@ -516,7 +516,11 @@ pub fn generate(rng: &mut Rng, spread: &Spread) -> Scenario {
         poll: *rng.pick(&[PollOrder::Fwd, PollOrder::Rev, PollOrder::Rot, PollOrder::Alt]),
         spurious: if rng.chance(1, 4) { rng.range(1, 5) as u8 } else { 0 },
         udp,
+        lo_side: None,
     };
+    if sc.topo.cross() && sc.via == Via::Wire && rng.chance(1, 6) {
+        sc.lo_side = Some(LoSide { chunk: *rng.pick(&[200u32, 1500, 3000, 9000]), chunks: rng.range(2, 12) as u8, gap: rng.range(0, 2) as u8 });
+    }
     if guarded && avoid.hs_budget && mode_of(&sc) == Mode::Bounded {
         // keep clear of (d): drop delay faults until the static trigger is gone
         while trigger_hs_budget(&sc) {
